@@ -63,7 +63,7 @@ type c20Scen struct {
 func genC20(t *rapid.T) c20Scen {
 	s := c20Scen{MaxQueued: rapid.SampledFrom([]int{3, 1000}).Draw(t, "maxq"), Redis: rapid.IntRange(0, 3).Draw(t, "backend") == 0}
 	for i := 0; i < 3; i++ {
-		c := c20Client{V: rapid.SampledFrom([]int{4, 5}).Draw(t, "v"), Persistent: rapid.IntRange(0, 2).Draw(t, "pers") != 0}
+		c := c20Client{V: rapid.SampledFrom([]int{3, 4, 5, 5}).Draw(t, "v"), Persistent: rapid.IntRange(0, 2).Draw(t, "pers") != 0}
 		if c.V == 5 && rapid.IntRange(0, 2).Draw(t, "mp") == 0 {
 			c.MaxPkt = 90
 		}
@@ -243,6 +243,12 @@ type dropKey struct {
 }
 
 func runC20(s c20Scen, c *ev.Case) *ev.Violation {
+	for _, cl := range s.Clients {
+		if cl.V == 3 {
+			c.Label("mqtt31_client")
+			break
+		}
+	}
 	cfg := fixture.BaseConfig()
 	cfg.MQTT.MaxQueuedMsg = s.MaxQueued
 	if s.MaxQueued < 100 {
@@ -284,6 +290,7 @@ func runC20(s c20Scen, c *ev.Case) *ev.Violation {
 			}
 			mu.Unlock()
 		}}
+	redisDump := func() string { return "" }
 	if s.Redis {
 		rs, cleanup, e := fixture.StartRedis()
 		if e != nil {
@@ -292,6 +299,7 @@ func runC20(s c20Scen, c *ev.Case) *ev.Violation {
 		defer cleanup()
 		cfg = fixture.WithRedis(cfg, rs.Addr())
 		c.Label("backend_redis")
+		redisDump = rs.Dump
 	}
 	b, err := fixture.Start(fixture.Opts{Config: cfg, Hooks: hooks})
 	if err != nil {
@@ -469,7 +477,12 @@ func runC20(s c20Scen, c *ev.Case) *ev.Violation {
 				}
 			}
 			if !got {
-				return ev.Violf("C20.barrier", "client %s: no sentinel got through in 100 attempts", cl.ID)
+				cs, _ := b.Srv.StatsManager().GetClientStats(cl.ID)
+				mu.Lock()
+				dr := fmt.Sprint(drops)
+				mu.Unlock()
+				return ev.Violf("C20.barrier", "client %s: no sentinel got through in 100 attempts (10 s); its statistics: queued %d in flight %d, drops so far %s\n%s\n%s", cl.ID,
+					cs.MessageStats.QueuedCurrent, cs.MessageStats.InflightCurrent, dr, redisDump(), brokerGoroutines())
 			}
 			for k := 0; k < 3; k++ {
 				if err := cl.Ping(fixture.DefaultWait); err != nil {
